@@ -61,6 +61,15 @@ def run_job(job):
     cmd2 += [base + ".a.gb", base + ".b.gb"]
     rc, so, se, dt = run(cmd2, 300)
     res["cmds"].append(" ".join(cmd2))
+    if rc != 0 and "--apply-loop-contracts" in cmd2 and "Found loop without contract nested in a loop with a contract" in (se + so):
+        # the code acquired a loop the loop contracts do not know, inside a contracted one: goto-instrument refuses. Bounded
+        # attempt instead of giving up: no loop contracts at all, every loop unwound 3 times with unwinding assertions --
+        # failures inside the bound are real, a loop that needs more iterations makes the function inconclusive
+        cmd2 = [c for c in cmd2 if c != "--apply-loop-contracts"]
+        rc, so, se, dt = run(cmd2, 300)
+        res["cmds"].append(" ".join(cmd2))
+        job = dict(job, unwind=3, loops=False)
+        res["fallback"] = "loop contracts dropped (new loop without contract inside a contracted loop); bounded unwinding 3"
     if rc != 0:
         res["status"] = "error"
         res["reason"] = "goto-instrument failed: " + (se + so)[-3000:]
@@ -69,6 +78,20 @@ def run_job(job):
     # first run in TEXT mode: --json-ui always builds a counterexample trace for every failed property, and the canary at
     # the end of every harness fails by design -- its trace over symbolic-size objects can take minutes (1.6 s vs 400 s
     # for makeString). Traces are fetched in a second (JSON) run, only for the obligations that failed.
+    if job.get("unwind"):
+        # an explicit bound replaces the residual-loop guard the spec may carry in its flags
+        f2, skip = [], False
+        for x in flags:
+            if skip:
+                skip = False
+                continue
+            if x == "--unwind":
+                skip = True
+                continue
+            if x == "--unwinding-assertions":
+                continue
+            f2.append(x)
+        flags = f2
     cmd3 = ["cbmc", base + ".b.gb"] + flags
     if job.get("unwind"):
         cmd3 += ["--unwind", str(job["unwind"]), "--unwinding-assertions"]
@@ -82,7 +105,7 @@ def run_job(job):
             "__CPROVER_contracts_write_set_check_frees_clause_inclusion.0", "__CPROVER_contracts_write_set_check_assigns_clause_inclusion.0"))]
     if spec.solver:
         cmd3 += [spec.solver] if isinstance(spec.solver, str) else list(spec.solver)
-    cmd3 += ["--object-bits", str(spec.objbits or 10), "--no-malloc-may-fail"]
+    cmd3 += ["--object-bits", str(spec.objbits or (13 if job.get("unwind") else 10)), "--no-malloc-may-fail"]
     rc, so, se, dt = run(cmd3, spec.timeout)
     res["cmds"].append(" ".join(cmd3))
     res["time"] = time.time() - t0
